@@ -1164,6 +1164,11 @@ func (c *Conn) verifyServerCertificate(certificates [][]byte) error {
 			} else if c.config.InsecureServerNameToVerify != "*" {
 				opts.DNSName = c.config.InsecureServerNameToVerify
 			}
+			if len(c.config.InsecureServerNameToVerify) == 0 {
+				// ECH was rejected: the server authenticates as the public name that
+				// was sent in the outer ClientHello, not as Config.ServerName.
+				opts.DNSName = c.serverName
+			}
 			// [UTLS SECTION END]
 
 			for _, cert := range certs[1:] {
